@@ -403,12 +403,12 @@ class Body:
         x = pat[1]
         v = 'v_' + x
         env2 = dict(env)
-        # let x = self.children[k].len()
-        if e[0] == 'mcall' and e[2] == 'len' and e[3] == [] and self_index(e[1], 'children') is not None:
+        # let x = self.children[k].len()   (or through a `&mut self.children[k]` alias)
+        if e[0] == 'mcall' and e[2] == 'len' and e[3] == [] and (self_index(e[1], 'children') is not None or self.var(e[1], env, 'place')):
             l = self.tmp('l')
             env2[x] = (v, 'N')
             return '%s <- sm_index (t_children %s) %s ;;\nlet %s := N.of_nat (length %s) in\n%s' % (
-                l, s, self.key(self_index(e[1], 'children'), env), v, l, k(env2, s))
+                l, s, self.children_place(e[1], env), v, l, k(env2, s))
         # let x = self.children[k].remove(i)
         if e[0] == 'mcall' and e[2] == 'remove' and len(e[3]) == 1 and self_index(e[1], 'children') is not None:
             r, s2 = self.tmp('r'), self.new_state()
